@@ -1277,6 +1277,23 @@ def native_functor_guard(c, a, st, v):
     f = a["f"]
     q0 = hyp(f).f["quotient"].items[0].t
     if is_fail(v):
+        # Totality: with no pending unification, absence is possible only if the user's functor breaks its
+        # typing contract A_L (F(op) : F(source) -> F(target)), whose arity consequence for the tensor of all
+        # operation images is stated here as the lemma LAXFUNCTOR-ARITY-TRUSTED.
+        h = hyp(f)
+        nodes_t, adj = h.f["nodes"].t, h.f["adjacency"].t
+        conds = [("eq", t_len(q0), 0)]
+        leaves = loopvar_leaves(st, "lax::functor::traits::map_operations", "result")
+        for leg in ("sources", "targets"):
+            for lf in leaves:
+                if lf[1][-1] == leg and len(lf[1]) == 3:
+                    for fkey in functor_keys(st):
+                        el = ("LFobj", "map_object", fkey, ("elem", nodes_t))
+                        sizes = ("lens", ("lmap", nodes_t, ("seq", el)), el)
+                        conds.append(("eq", t_len(lf), t_sum(("gather", sizes, ("flat", adj, ("el", adj, leg))))))
+        if len(conds) > 1:
+            c.I.lemma_uses["LAXFUNCTOR-ARITY-TRUSTED"] = c.I.lemma_uses.get("LAXFUNCTOR-ARITY-TRUSTED", 0) + 1
+        c.rej(st, "native functor path is total on quotient-free diagrams (absence only for pending unifications)", conds)
         return
     c.ob("ACC", "native functor path refuses diagrams with pending unifications",
          "Some ⇒ no pending unification", st.eq(t_len(q0), 0), st)
@@ -1286,6 +1303,43 @@ def native_functor_guard(c, a, st, v):
         n = n_nodes(f)
         c.eq(st, "witness: one segment per input node", t_len(ic_sizes(wit)), n)
         c.eq(st, "witness: values index the result's nodes", tgt(wit.f["values"]), n_nodes(res))
+
+
+def _walk_terms(st, visit):
+    def walk_t(t):
+        if isinstance(t, tuple):
+            visit(t)
+            for x in t:
+                walk_t(x)
+        elif isinstance(t, Poly):
+            for a in t.atoms():
+                walk_t(a)
+    for k, p in st.lin.facts:
+        walk_t(p)
+    for t in st.bnd:
+        walk_t(t)
+
+
+def loopvar_leaves(st, fn_suffix, var):
+    """Leaf terms ('v', ('loopvar', (fn, loop, var), field...)) of a summarised loop mentioned on the path."""
+    out = set()
+
+    def visit(t):
+        if len(t) == 2 and t[0] == "v" and isinstance(t[1], tuple) and t[1] and t[1][0] == "loopvar" \
+                and isinstance(t[1][1], tuple) and t[1][1][0].endswith(fn_suffix) and t[1][1][-1] == var:
+            out.add(t)
+    _walk_terms(st, visit)
+    return sorted(out, key=repr)
+
+
+def functor_keys(st):
+    out = set()
+
+    def visit(t):
+        if len(t) == 4 and t[0] == "LFobj" and t[1] == "map_object":
+            out.add(t[2])
+    _walk_terms(st, visit)
+    return sorted(out, key=repr)
 
 
 def kahn_flags(st, name="unvisited"):
